@@ -72,15 +72,17 @@ Proof. unfold obj_kws. destruct title, ps, req; reflexivity. Qed.
 
 Theorem required_iff_no_default E dl ar m d s : class_schema E dl ar m d = Some s ->
   forall key, In key (get_required (kws_of s)) <->
-              exists f, In f (c_fields d) /\ f_key f = key /\ f_init f = true /\ f_has_default f = false.
+              exists f, In f (c_fields d) /\ f_key f = key /\ f_init f = true /\ f_has_default f = false
+                        /\ (c_omit d && fnullable f) = false.
 Proof.
   unfold class_schema. intros H key.
   match type of H with context [omap ?G ?L] => destruct (omap G L) as [ps|]; [|discriminate] end.
   inversion H; subst; clear H. cbn [kws_of]. rewrite get_required_obj. split.
   - intros Hin. apply in_map_iff in Hin. destruct Hin as (f & Hk & Hf). apply filter_In in Hf. destruct Hf as [Hf Hd].
-    apply filter_In in Hf. destruct Hf as [Hf Hi]. exists f. apply negb_true_iff in Hd. auto.
-  - intros (f & Hf & Hk & Hi & Hd). apply in_map_iff. exists f. split; [assumption|].
-    apply filter_In. split; [apply filter_In; auto|]. rewrite Hd. reflexivity.
+    apply filter_In in Hf. destruct Hf as [Hf Hi]. exists f. unfold frequired in Hd.
+    apply andb_true_iff in Hd. destruct Hd as [Hd Ho]. apply negb_true_iff in Hd. apply negb_true_iff in Ho. auto.
+  - intros (f & Hf & Hk & Hi & Hd & Ho). apply in_map_iff. exists f. split; [assumption|].
+    apply filter_In. split; [apply filter_In; auto|]. unfold frequired. rewrite Hd, Ho. reflexivity.
 Qed.
 
 (* ---------------- satisfiable: emitted array bounds are consistent ---------------- *)
@@ -116,8 +118,8 @@ Theorem intkey_refuted :
 Proof. split; [vm_compute; reflexivity|]. eexists. split; [vm_compute; reflexivity | vm_compute; reflexivity]. Qed.
 
 Definition E_same := mkEnv
-  [mkC "P1" "P" [mkF "v" "v" TInt false true None] false false; mkC "P2" "P" [mkF "v" "v" TStr false true None] false false;
-   mkC "HP" "HP" [mkF "a" "a" (TData "P1") false true None; mkF "b" "b" (TData "P2") false true None] false false] [] [] [].
+  [mkC "P1" "P" [mkF "v" "v" TInt false true None false] false false; mkC "P2" "P" [mkF "v" "v" TStr false true None false] false false;
+   mkC "HP" "HP" [mkF "a" "a" (TData "P1") false true None false; mkF "b" "b" (TData "P2") false true None false] false false] [] [] [].
 Definition doc_same := JObj [("a", JObj [("v", JInt 1)]); ("b", JObj [("v", JStr "s")])].
 Theorem shared_defs_refuted :
   enc_ok 9 E_same false false (TData "HP") (VObj [("a", VObj [("v", VInt 1)]); ("b", VObj [("v", VStr "s")])]) doc_same = true /\
@@ -138,7 +140,7 @@ Theorem set_collision_refuted :
             jvalid pm_any [] 50 s (JArr [JStr "2020-01-01"; JStr "2020-01-01"]) = false.
 Proof. split; [vm_compute; reflexivity|]. eexists. split; [vm_compute; reflexivity | vm_compute; reflexivity]. Qed.
 
-Definition E_init := mkEnv [mkC "B" "B" [mkF "n" "n" TInt true false None] false false] [] [] [].
+Definition E_init := mkEnv [mkC "B" "B" [mkF "n" "n" TInt true false None false] false false] [] [] [].
 Theorem init_false_refuted :
   enc_ok 5 E_init false false (TData "B") (VObj [("n", VInt 5)]) (JObj [("n", JInt 5)]) = true /\
   exists s, schema_f E_init dl2020 false false 5 (TData "B") = Some s /\ jvalid pm_any [] 50 s (JObj [("n", JInt 5)]) = false.
@@ -147,9 +149,9 @@ Proof. split; [vm_compute; reflexivity|]. eexists. split; [vm_compute; reflexivi
 (* non-vacuity witness for the soundness theorem: a dataclass with an alias, a default,
    a nested class, an optional, a list and a str-keyed dict *)
 Definition E_nv := mkEnv
-  [mkC "A" "A" [mkF "x" "xx" TInt false true None; mkF "y" "y" (TUnion [TStr; TNone]) true true None] false false;
-   mkC "H" "H" [mkF "a" "a" (TData "A") false true None; mkF "l" "l" (TList false (TLeaf "date")) true true None;
-                mkF "d" "d" (TDict TStr (TTuple [(false, TInt); (false, TBool)])) true true None] false false] [] [] [].
+  [mkC "A" "A" [mkF "x" "xx" TInt false true None false; mkF "y" "y" (TUnion [TStr; TNone]) true true None false] false false;
+   mkC "H" "H" [mkF "a" "a" (TData "A") false true None false; mkF "l" "l" (TList false (TLeaf "date")) true true None false;
+                mkF "d" "d" (TDict TStr (TTuple [(false, TInt); (false, TBool)])) true true None false] false false] [] [] [].
 Definition v_nv := VObj [("a", VObj [("x", VInt 1); ("y", VNone)]); ("l", VList [VLeaf "2020-01-01"]);
                          ("d", VDict [(VStr "k", VList [VInt 2; VBool true])])].
 Definition j_nv := JObj [("a", JObj [("xx", JInt 1); ("y", JNull)]); ("l", JArr [JStr "2020-01-01"]);
@@ -162,12 +164,12 @@ Proof.
 Qed.
 
 (* ---- named tuples as dicts / field override / omit_none ---- *)
-Definition NT_P := mkC "P" "P" [mkF "a" "a" TInt false true None; mkF "b" "b" (TUnion [TStr; TNone]) true true None] false false.
-Definition NT_Q := mkC "Q" "Q" [mkF "l" "l" (TList false (TNamed "P")) false true None] false false.
+Definition NT_P := mkC "P" "P" [mkF "a" "a" TInt false true None false; mkF "b" "b" (TUnion [TStr; TNone]) true true None false] false false.
+Definition NT_Q := mkC "Q" "Q" [mkF "l" "l" (TList false (TNamed "P")) false true None false] false false.
 
 (* KF schema-nt-override-in-containers: q: Q = field(metadata={"serialize": "as_dict"}), Q.l: List[P]:
    the serializer forgets the override inside the list ([[1, null]]), the schema does not *)
-Definition E_ovc := mkEnv [mkC "A" "A" [mkF "q" "q" (TNamed "Q") false true (Some true)] false false] [] [NT_P; NT_Q] [].
+Definition E_ovc := mkEnv [mkC "A" "A" [mkF "q" "q" (TNamed "Q") false true (Some true) false] false false] [] [NT_P; NT_Q] [].
 Definition v_ovc := VObj [("q", VList [VList [VList [VInt 1; VNone]]])].
 Definition j_ovc := JObj [("q", JObj [("l", JArr [JArr [JInt 1; JNull]])])].
 Theorem nt_override_container_refuted :
@@ -175,24 +177,33 @@ Theorem nt_override_container_refuted :
   exists s, schema_f E_ovc dl2020 false false 9 (TData "A") = Some s /\ jvalid pm_any [] 50 s j_ovc = false.
 Proof. split; [vm_compute; reflexivity|]. eexists. split; [vm_compute; reflexivity | vm_compute; reflexivity]. Qed.
 
-(* KF schema-omit-none-required: x: Optional[int] without default in a class with omit_none *)
-Definition E_omit := mkEnv [mkC "A" "A" [mkF "x" "x" (TUnion [TInt; TNone]) false true None] false true] [] [] [].
-Theorem omit_none_required_refuted :
+(* fixed in /repo a5aab21 (was KF schema-omit-none-required): x: Optional[int] without default in a class with
+   omit_none: the key is dropped for None and is not required *)
+Definition E_omit := mkEnv [mkC "A" "A" [mkF "x" "x" (TUnion [TInt; TNone]) false true None false] false true] [] [] [].
+Theorem omit_none_required_example :
+  ty_ok 5 E_omit false false (TData "A") = true /\
   enc_ok 5 E_omit false false (TData "A") (VObj [("x", VNone)]) (JObj []) = true /\
-  exists s, schema_f E_omit dl2020 false false 5 (TData "A") = Some s /\ jvalid pm_any [] 50 s (JObj []) = false.
-Proof. split; [vm_compute; reflexivity|]. eexists. split; [vm_compute; reflexivity | vm_compute; reflexivity]. Qed.
+  exists s, schema_f E_omit dl2020 false false 5 (TData "A") = Some s /\ get_required (kws_of s) = [] /\
+            jvalid pm_any [] 50 s (JObj []) = true.
+Proof.
+  split; [vm_compute; reflexivity|]. split; [vm_compute; reflexivity|].
+  eexists. split; [vm_compute; reflexivity | split; [vm_compute; reflexivity | vm_compute; reflexivity]].
+Qed.
 
 (* non-vacuity with the new constructs: class S with namedtuple_as_dict and omit_none:
      p: P (dict, by the class option)          o: P = field(serialize="as_list") (list, by the override)
      t: Tuple[P, ...] (dicts)                  a: List[Optional[int]] (nested None is kept)
-     y: Optional[str] = None (dropped when None) *)
+     z: Optional[int] (no default: dropped when None, hence not required)
+     y: Optional[str] = None, w: Literal[1, None] = None (nullable by "default is None": dropped when None) *)
 Definition E_nv2 := mkEnv
-  [mkC "S" "S" [mkF "p" "p" (TNamed "P") false true None; mkF "o" "o" (TNamed "P") false true (Some false);
-                mkF "t" "t" (TList true (TNamed "P")) false true None;
-                mkF "a" "a" (TList false (TUnion [TInt; TNone])) false true None;
-                mkF "y" "y" (TUnion [TStr; TNone]) true true None] true true] [] [NT_P] [].
+  [mkC "S" "S" [mkF "p" "p" (TNamed "P") false true None false; mkF "o" "o" (TNamed "P") false true (Some false) false;
+                mkF "t" "t" (TList true (TNamed "P")) false true None false;
+                mkF "a" "a" (TList false (TUnion [TInt; TNone])) false true None false;
+                mkF "z" "z" (TUnion [TInt; TNone]) false true None false;
+                mkF "y" "y" (TUnion [TStr; TNone]) true true None true;
+                mkF "w" "w" (TLit [JInt 1; JNull]) true true None true] true true] [] [NT_P] [].
 Definition v_nv2 := VObj [("p", VList [VInt 1; VNone]); ("o", VList [VInt 2; VStr "s"]); ("t", VList [VList [VInt 3; VNone]]);
-                          ("a", VList [VInt 1; VNone]); ("y", VNone)].
+                          ("a", VList [VInt 1; VNone]); ("z", VNone); ("y", VNone); ("w", VRaw JNull)].
 Definition j_nv2 := JObj [("p", JObj [("a", JInt 1); ("b", JNull)]); ("o", JArr [JInt 2; JStr "s"]);
                           ("t", JArr [JObj [("a", JInt 3); ("b", JNull)]]); ("a", JArr [JInt 1; JNull])].
 Lemma nonvacuous2 : env_ok E_nv2 = true /\ ty_ok 9 E_nv2 false false (TData "S") = true /\
